@@ -14,6 +14,7 @@ import Indi.Model.B64
 import Indi.Model.Dev
 import Indi.Spec.Dev
 import Indi.Spec.Cli
+import Indi.Spec.Wait
 
 open Indi Indi.Wire
 
@@ -186,6 +187,12 @@ def encBytes (l : List Nat) : String :=
 
 /-! driver component -/
 
+def pOptNat' : P (Option Nat) := do
+  let ts ← get
+  match ts with
+  | "~" :: rest => do set rest; pure none
+  | _ => do let n ← pNat; pure (some n)
+
 def pValue : P Dev.Value := do
   let t ← tok
   match t with
@@ -288,6 +295,29 @@ def encDevResult (r : Dev.Result) : String :=
 def devRun : Dev.Device → List Dev.Op → List String
   | _, [] => []
   | d, op :: rest => let r := Dev.step d op; encDevResult r :: devRun r.dev rest
+
+/-! wait component -/
+
+def pWaitCfg : P Wait.Cfg := do
+  let t ← pOptNat'; let p ← pBool; let d ← pNat; let i ← pNat
+  pure { timeout := t, polling := p, delay := d, interval := i }
+
+def pBatch : P Wait.Batch := do
+  let t ← pNat; let fl ← pList pBool
+  pure (t, fl)
+
+def pOutcome : P Wait.Outcome := do
+  let t ← tok
+  match t with
+  | "P" => pure .pending
+  | "E" => do let a ← pNat; let i ← pNat; pure (.event a i)
+  | "T" => do let a ← pNat; pure (.timeout a)
+  | _ => fail
+
+def encOutcome : Wait.Outcome → String
+  | .pending => "P"
+  | .event t i => "E " ++ toString t ++ " " ++ toString i
+  | .timeout t => "T " ++ toString t
 
 /-! client component -/
 
@@ -452,6 +482,19 @@ def handle (ts : List String) : String :=
     match runP (do let a ← pMsg; let b ← pMsg; pure (a, b)) rest with
     | some (a, b) => encBool (Spec.Dev.norm a == Spec.Dev.norm b)
     | none => "bad-op"
+  | "wait" :: "run" :: rest =>
+    match runP (do let c ← pWaitCfg; let b ← pList pBatch; let h ← pNat; pure (c, b, h)) rest with
+    | some (c, b, h) =>
+      let st := Wait.run c b h
+      encOutcome st.outcome ++ " sends " ++ encIds st.sends.reverse ++ " cb " ++ encBool st.cbRegistered
+    | none => "bad-op"
+  | "spec" :: "wait" :: rest =>
+    match runP (do
+        let c ← pWaitCfg; let b ← pList pBatch; let h ← pNat
+        let o ← pOutcome; let sd ← pList pNat; let cb ← pBool
+        pure (c, b, h, o, sd, cb)) rest with
+    | some (c, b, h, o, sd, cb) => encBool (Spec.Wait.holds c b h o sd cb)
+    | none => "bad-op"
   | "cli" :: "run" :: rest =>
     match runP (pList pCliOp) rest with
     | some ops => String.intercalate " | " (cliRun {} ops)
@@ -460,9 +503,16 @@ def handle (ts : List String) : String :=
     match runP (do let b ← pMirror; let m ← pMsg; let r ← pBool; let a ← pMirror; pure (b, m, r, a)) rest with
     | some (b, m, r, a) => (match Spec.Cli.c15Holds b m r a with | some x => encBool x | none => "na")
     | none => "bad-op"
+  | "spec" :: "c16chain" :: rest =>
+    match runP (do let a ← pMirror; let l ← pList pEvent; pure (a, l)) rest with
+    | some (a, l) => encBool (Spec.Cli.chainInv a l)
+    | none => "bad-op"
   | "spec" :: "c16" :: rest =>
-    match runP (do let cbs ← pList pCallback; let b ← pMirror; let m ← pMsg; let o ← pDeliv; pure (cbs, b, m, o)) rest with
-    | some (cbs, b, m, o) => (match Spec.Cli.c16Holds cbs b m o with | some x => encBool x | none => "na")
+    -- the registry is computed by the specification from the history of onevent / rmonevent calls
+    match runP (do let ops ← pList pCliOp; let b ← pMirror; let m ← pMsg; let o ← pDeliv; pure (ops, b, m, o)) rest with
+    | some (ops, b, m, o) =>
+      let cbs := (ops.foldl (fun st op => (Cli.step st op).state) ({} : Cli.State)).cbs
+      (match Spec.Cli.c16Holds cbs b m o with | some x => encBool x | none => "na")
     | none => "bad-op"
   | "dev" :: "run" :: rest =>
     match runP (do let d ← pDevice; let ops ← pList pDevOp; pure (d, ops)) rest with
